@@ -44,8 +44,9 @@ CLAIM = dict(
     text="Theorems (Props/C14.lean): whatever text the integer scanner matches derives from Python's `integer` grammar, "
          "int(text.replace('_',''), 0) as modelled succeeds on it and yields the value the reference assigns to the "
          "spelling with its underscores (int_token_python); whatever text the float scanner matches derives from "
-         "`floatnumber` (float_token_python_partial: the equality of the modelled literal_eval result with the reference "
-         "decimal mantissa*10^exp is NOT proved, it is checked by the run on every spelling and on random floats); hence a "
+         "`floatnumber` and literal_eval(text.replace('_','')) as modelled returns a float whose exact decimal "
+         "mantissa*10^exp is the one the reference assigns to the spelling (float_token_python; IEEE rounding of that "
+         "decimal is Python's on both sides); hence a "
          "number token emitted by the tag rule is never a spelling Python rejects or reads as the other kind "
          "(number_token_python = DESIGN's number_never_longer); for every string of code points < 0x110000 (lone "
          "surrogates included), either quote character and every per-character choice among raw, single-character escape, "
@@ -54,15 +55,19 @@ CLAIM = dict(
          "wherever it stands (string_roundtrip; raw code points must be scalar values because model source text is List "
          "Char), in particular for the spelling repr() chooses, str.isprintable being a parameter (repr_roundtrip); a run of "
          "adjacent string tokens denotes the concatenation (adjacent_concat). The derivative matcher that runs the grammar "
-         "in the driver is proved to decide the grammar (accepts_iff, Lemmas/PyLiteral.lean). Not proved: agreement of the "
-         "escape decoder with the reference escape table on arbitrary bodies (DESIGN's string_escape_spec_partial) - "
-         "correspondence only. Tie: every spelling of length <=4 (quick) / <=5 (thorough) over [0-9_.eExXoObB+-] through "
+         "in the driver is proved to decide the grammar (accepts_iff, Lemmas/PyLiteral.lean). For every body in which no "
+         "escape-position backslash is directly followed by a non-ASCII code point, the backslashreplace/unicode-escape "
+         "pipeline yields exactly what the reference escape table yields - same value, syntax error in the same cases, \\N "
+         "declined on both sides (string_escape_spec_partial; the excluded shape is finding F13, for which Findings/F13.lean "
+         "refutes the full statement in the model). The pattern strings and flags of integer_re, float_re, string_re read "
+         "from lexer.py each run equal the patterns the scanners transcribe (literal_regexes_pinned, Props/C14Regex.lean "
+         "over Gen/LiteralRegex.lean); if not, the run searches at the thorough budget. Tie: every spelling of length <=4 (quick) / <=5 (thorough) over [0-9_.eExXoObB+-] through "
          "the real lexer, Python's parser, the Lean model and the Lean grammar, each accepted one also through "
          "compile_expression and render; random strings over all code point classes (quotes, backslashes, line breaks, "
          "controls, Latin-1, BMP, lone surrogates, astral) in repr, other-quote and mixed spellings with adjacent pieces "
          "through tokens, Environment.parse, compile_expression, render and the Lean model; random escape soups against "
          "eval and the Lean escape table; big integers in four bases with underscores; boundary and random floats in "
-         "several spellings, also negated.",
+         "several spellings, also negated; non-finite constants (inf, -inf, nan by folding) in set/if/for/macro positions.",
     note="Trusted: Lean kernel; hand models of integer_re/float_re/string_re, int(s,0), literal_eval, the two codecs and "
          "repr (tied by correspondence); IEEE rounding and \\N{} assumed. Known findings: F13 ('\\é' gives '\\xe9'); a float "
          "literal that overflowed to inf was compiled to the bare name `inf` (NameError; fixed in 28fea2b, non-finite "
